@@ -1,5 +1,6 @@
 // C07 - mbuff is a faithful byte-sequence value under any history (embedded NULs included).
 #include "../../engine/rcglue.hpp"
+#include "tracker.hpp"
 #include "../../engine/latrack.hpp"
 #include <cmath>
 
@@ -138,6 +139,7 @@ struct Interp {
 
     void run(const Case &c) {
         ht_install();
+        tracker_begin(ctx);
         size_t at = 0;
         c07_init();
         if (at < c.size() && is_ctor(c[at].name)) { ctx.step((int)at); ht_set_tag((int)at); construct(c[at], SUBJ, false); at++; }
@@ -152,7 +154,8 @@ struct Interp {
         }
         ctx.step((int)c.size());
         for (int i = 0; i < NSLOT; i++) if (m[i].exists) { int r = LA(c07_del(i)); VT_CHECK(ctx, r == 1, "mismatch", "del; del returned FALSE"); m[i].exists = false; }
-        if (!ht_overflowed() && ht_live_count() != 0) {
+        if (tracker_final(ctx)) {
+        } else if (!ht_overflowed() && ht_live_count() != 0) {
             char buf[256];
             ht_describe(buf, sizeof buf);
             ctx.fail("leak", "heap-not-balanced; " + std::to_string(ht_live_count()) + " block(s), " + std::to_string(ht_live_bytes()) + " bytes still live after deleting every object: " + buf);
